@@ -54,6 +54,21 @@ Example C04_example :
   hand_rank_value_validated true [7; 4294967295; 0; 1; 2] = Ok 0.
 Proof. repeat split; vm_compute; reflexivity. Qed.
 
+From CKC Require Import Model.Proj Proofs.FreeFacts Proofs.ProjC04.
+(* the `vrank` line of the correspondence check, for ANY words in five, six or seven slots, is one of two
+   constants chosen by validity alone: `1 0 1 1` (valid) or `0 1 1` (not valid), plus a final `1` for five slots *)
+Theorem C04_projection : forall chk n ws,
+  (n = 5 \/ n = 6 \/ n = 7)%nat -> length ws = n ->
+  proj_vrank chk ws =
+    (if is_valid ws then [Ok true; Ok false; Ok true; Ok true] else [Ok false; Ok true; Ok true])
+    ++ (if Nat.eqb n 5 then [Ok true] else []).
+Proof. exact proj_vrank_const. Qed.
+(* in particular on distinct real cards *)
+Theorem C04_projection_hand : forall chk n ws,
+  (n = 5 \/ n = 6 \/ n = 7)%nat -> HandN n ws ->
+  proj_vrank chk ws = [Ok true; Ok false; Ok true; Ok true] ++ (if Nat.eqb n 5 then [Ok true] else []).
+Proof. exact proj_vrank_hand. Qed.
+
 Print Assumptions C04_is_valid.
 Print Assumptions C04_is_corrupt.
 Print Assumptions C04_contain_blank.
@@ -63,3 +78,5 @@ Print Assumptions C04_filter.
 Print Assumptions C04_validated.
 Print Assumptions C04_zero_iff.
 Print Assumptions C04_free_function.
+Print Assumptions C04_projection.
+Print Assumptions C04_projection_hand.
